@@ -9,6 +9,7 @@ import (
 
 	"verifharness/engine"
 	"verifharness/gen"
+	"verifharness/model"
 )
 
 // C11: space conservation on bounded files without overflow transactions. At every quiescent point
@@ -154,7 +155,7 @@ func init() {
 	register("c11", func(args []string) int {
 		f := parseFlags("c11", args)
 		rep := newReport("C11", f)
-		rep.Rule = "long alloc/free/overwrite cycle histories (no overflow transactions) on bounded configurations (64-256 pages, meta area 0/1/4/8, prealloc); plus short abort-heavy histories (50% of the transactions end in Rollback/Close); after every commit / rollback / close / reopen: allocatable + live + meta area + 2 == max pages, file extent <= max size, Observer FileStats == (live, meta area, meta in use); every 7th point and at the end a capacity probe (allocate until failure in a rolled-back transaction) must equal the allocatable count. Non-trivial: distinct (config, op statistics)."
+		rep.Rule = "long alloc/free/overwrite cycle histories (no overflow transactions) on bounded configurations (64-256 pages, meta area 0/1/4/8, prealloc); plus short abort-heavy histories (50% of the transactions end in Rollback/Close); after every commit / rollback / close / reopen: allocatable + live + meta area + 2 == max pages, file extent <= max size, Observer FileStats == (live, meta area, meta in use); every 7th point and at the end a capacity probe (allocate until failure in a rolled-back transaction) must equal the allocatable count. directed: meta-area growth served by a contiguous run of the data free list; K1: allocator scripts (state incl. the per-transaction counters after every operation) vs. the Coq model. Non-trivial: distinct (config, op statistics)."
 		if f.replay != "" {
 			rp, err := loadHistReplay(f.replay)
 			if err != nil {
@@ -207,6 +208,50 @@ func init() {
 			ops := gen.History(hr, prof)
 			rep.count("part2:abort-heavy-histories", 1)
 			c11History(rep, cfg, ops, hseed)
+		}
+		// part 3 (directed): a run of adjacent pages is freed, then overwrites make the meta area grow: the growth is
+		// served by one contiguous region of the data free list (the third route of tryGrow besides scattered
+		// regions and the file end); the counters reported to the Observer must follow
+		for i := 0; i < 24; i++ {
+			cfg := cfgs[i%len(cfgs)]
+			run := []int{2, 4, 8, 16, 5, 12}[i%6]
+			ops := []engine.Op{{Kind: "begin"}, {Kind: "alloc", N: 24 + run}}
+			for k := 0; k < 24+run; k++ {
+				ops = append(ops, engine.Op{Kind: "setfull", P: k, Seed: 100 + k})
+			}
+			ops = append(ops, engine.Op{Kind: "commit"}, engine.Op{Kind: "begin"})
+			for k := 0; k < run; k++ {
+				ops = append(ops, engine.Op{Kind: "free", P: 6 + i%5}) // the same index: adjacent pages
+			}
+			ops = append(ops, engine.Op{Kind: "commit"})
+			// overwrites of existing pages need overwrite pages: 1, 2, 4, ... per transaction
+			for k := 1; k <= 16; k *= 2 {
+				ops = append(ops, engine.Op{Kind: "begin", WALLimit: 1000})
+				for j := 0; j < k; j++ {
+					ops = append(ops, engine.Op{Kind: "setfull", P: j, Seed: 200 + k + j})
+				}
+				ops = append(ops, engine.Op{Kind: "commit"})
+			}
+			ops = append(ops, engine.Op{Kind: "reopen"}, engine.Op{Kind: "verify"})
+			rep.count("part3:meta-growth-from-a-contiguous-free-run", 1)
+			c11History(rep, cfg, ops, int64(3000+i))
+		}
+		// K1: the per-transaction counters (data / meta / overflow pages allocated and freed, pages moved to the meta
+		// area) are part of the allocator state compared with the Coq model after every operation
+		if m, err := model.Start(); err == nil {
+			k := 150
+			if f.tier == "thorough" {
+				k = 4000
+			}
+			for i := 0; i < k; i++ {
+				allocScript(rep, m, r)
+				rep.count("alloc:scripts", 1)
+			}
+			rep.ModelCalls = m.N
+			m.Close()
+		} else {
+			fmt.Fprintln(os.Stderr, err)
+			return 2
 		}
 		return rep.finish(f)
 	})
